@@ -36,6 +36,32 @@ import (
 
 func init() { runners["funtoken"] = runFunToken }
 
+// seqRuntime: a library that the proxy DELEGATECALLs: its calldata is a list of [address:20][len:2][payload]; each is CALLed in
+// turn from the proxy's context (so msg.sender is the proxy), failures are tolerated, and a bit mask of the results is returned
+// (last call = lowest bit).  Used for "a precompile call that fails, then one that succeeds, in ONE transaction".
+func seqRuntime() []byte {
+	a := easm.New()
+	a.Label("loop")
+	a.Op(easm.CALLDATASIZE).Push(0).Op(easm.MLOAD).Op(easm.LT, easm.ISZERO).JumpiTo("end")
+	a.Push(0).Op(easm.MLOAD).Push(20).Op(easm.ADD, easm.CALLDATALOAD).Push(240).Op(easm.SHR)
+	a.Op(easm.DUP1).Push(0x40).Op(easm.MSTORE)
+	a.Push(0).Op(easm.MLOAD).Push(22).Op(easm.ADD).Push(0x100).Op(easm.CALLDATACOPY)
+	a.Push(0).Push(0).Push(0x40).Op(easm.MLOAD).Push(0x100).Push(0)
+	a.Push(0).Op(easm.MLOAD, easm.CALLDATALOAD).Push(96).Op(easm.SHR)
+	a.Push(900000).Op(easm.CALL) // a fixed allowance per call: a failing precompile call burns all the gas it was given
+	a.Push(0x20).Op(easm.MLOAD).Push(2).Op(easm.MUL, easm.ADD).Push(0x20).Op(easm.MSTORE)
+	a.Push(0).Op(easm.MLOAD).Push(22).Op(easm.ADD).Push(0x40).Op(easm.MLOAD, easm.ADD).Push(0).Op(easm.MSTORE)
+	a.JumpTo("loop")
+	a.Label("end").Push(32).Push(0x20).Op(easm.RETURN)
+	return a.Bytes()
+}
+
+func seqEntry(target gethcommon.Address, payload []byte) []byte {
+	out := append([]byte{}, target.Bytes()...)
+	out = append(out, byte(len(payload)>>8), byte(len(payload)))
+	return append(out, payload...)
+}
+
 type ftAcct struct {
 	eth   gethcommon.Address
 	nibi  sdk.AccAddress
@@ -138,6 +164,10 @@ func runFunToken(r *hx.R, n int, w *hx.W, _ []string) error {
 
 	funtokenABI := embeds.SmartContract_FunToken.ABI
 	pcAddr := precompile.PrecompileAddr_FunToken
+	seqLib, err := deploy(3, easm.Deployer(seqRuntime()))
+	if err != nil {
+		return err
+	}
 
 	for h := 0; h < n; h++ {
 		ctx, _ := base.CacheContext()
@@ -398,7 +428,7 @@ func runFunToken(r *hx.R, n int, w *hx.W, _ []string) error {
 				}
 				res = fail(err, "")
 			case c < 15: // precompile call
-				via := []string{"top", "proxy", "revert"}[r.Pick(3)]
+				via := []string{"top", "proxy", "revert", "seq"}[r.Pick(4)]
 				caller := 1 + r.Pick(3)
 				eoa := caller
 				a := amt()
@@ -406,7 +436,7 @@ func runFunToken(r *hx.R, n int, w *hx.W, _ []string) error {
 				method := r.Pick(3)
 				if smart == "sendToBank" || smart == "sendToEvm" {
 					if smartHolder == 4 {
-						via = []string{"proxy", "proxy", "proxy", "revert"}[r.Pick(4)]
+						via = []string{"proxy", "proxy", "seq", "revert"}[r.Pick(4)]
 					} else {
 						via, caller, eoa = "top", smartHolder, smartHolder
 					}
@@ -457,6 +487,29 @@ func runFunToken(r *hx.R, n int, w *hx.W, _ []string) error {
 					res = fail(err, vmErr)
 					if res == "ok" && (len(ret) < 32 || new(big.Int).SetBytes(ret[:32]).Sign() == 0) {
 						res = "fail"
+					}
+				case "seq":
+					// ONE transaction: the proxy first makes a precompile call that fails after decoding (sendToBank of far more
+					// than it holds) and tolerates the failure, then makes the call under test: the failed call must leave nothing
+					// behind, and the second call must take effect exactly as if it had been made alone
+					huge := new(big.Int).Lsh(big.NewInt(1), 200)
+					bad, _ := funtokenABI.Pack("sendToBank", toks[r.Pick(len(toks))], huge, accts[1].nibi.String())
+					seq := append(seqEntry(pcAddr, bad), seqEntry(pcAddr, in)...)
+					ret, vmErr, err = ethTx(ctx, eoa, &proxy, proxyCalldata(2, seqLib, big.NewInt(0), 0, maxU256, seq))
+					res = fail(err, vmErr)
+					if res == "ok" {
+						// proxy returns [success][gas][returndata]; the library's return data is the result mask
+						if len(ret) < 96 || new(big.Int).SetBytes(ret[:32]).Sign() == 0 {
+							res = "seq-library-failed"
+						} else {
+							mask := new(big.Int).SetBytes(ret[64:96]).Uint64()
+							switch {
+							case mask&2 != 0:
+								res = "first-call-did-not-fail"
+							case mask&1 == 0:
+								res = "fail"
+							}
+						}
 					}
 				default:
 					inner := proxyCalldata(0x80, pcAddr, big.NewInt(0), 0, maxU256, in)
